@@ -173,6 +173,8 @@ def run(ctx, col: Collector):
         rd = rc.methods.get('render_db')
         if rd is None:
             raise AnchorMissing('DefaultSQLRenderer.render_db')
+        from .common import expanded
+        rd = expanded(ctx, rd.module, rd.qualname, keep_extra=('render', 'reorder_tables_for_sql'))
         dbp = [a.arg for a in rd.node.args.args][1]
         calls = [n for n in walk_no_nested(rd.node) if isinstance(n, ast.Call) and norm(n.func).split('.')[-1] == 'reorder_tables_for_sql']
         col.check(len(calls) == 1, 'C18-once', 'render_db:reorder-call', 'the reordering is applied exactly once',
